@@ -95,4 +95,18 @@ CHECKS = {
         "level_note": "Oracle strconv.FormatInt/FormatUint/ParseInt/ParseUint and the JSON integer grammar (ref.IsJSONInteger). Map keys use canonical decimal spellings only.",
         "assumptions": ["strconv is the reference for decimal conversion"],
     },
+    "C17": {
+        "pkg": "c17", "variants": [PLAIN],
+        "rule": ("encode: every byte string of length 0..2 (0..3 thorough) over all 256 byte values, and strings of length 4..40 with each of 39 byte classes (control, quote, backslash, HTML, DEL, every "
+                 "UTF-8 lead/continuation class incl. overlong, surrogate, > U+10FFFF, truncated, U+2028/9) at every offset 0..17 over two fillers, optionally with a second special class, each under the "
+                 "four escape-flag combinations as value and as map key; oracle: the literal is well-formed, has no raw control byte (nor raw <>& / U+2028/9 with HTML escaping), encoding/json decodes it to the "
+                 "original with invalid bytes as U+FFFD, and with normalisation on it equals encoding/json's literal modulo \\b/\\f spellings. decode: every JSON string literal of <= 4 (5 thorough) atoms over 26 atom "
+                 "kinds (plain 1-4-byte runes, every simple escape, \\u of each class incl. pairs and lone surrogates) plus atoms at offsets up to 1023 in long literals, as value (Unmarshal, Decoder with every single "
+                 "cut and 1-byte reads), struct field, ,string payload, UnmarshalText payload, map key and interface{} element, buffer and stream; oracle encoding/json. All cases distinct by construction; "
+                 "non-trivial = all (each contains a byte needing escaping/replacement or an escape atom, except the few plain ones)."),
+        "technique": "small-scope exhaustive enumeration (all short byte strings, all short literal compositions) + positioned byte-class sweep, differential against encoding/json",
+        "level_text": "Exhaustive for short strings/literals, systematic positional sweep for longer ones; exploration level.",
+        "level_note": "Oracle encoding/json (decode of the emitted literal; literal equality when normalisation is on). With DisableNormalizeUTF8 only well-formedness, content and the escape rules are asserted.",
+        "assumptions": ["encoding/json go1.23.5 string escaping/unescaping is the reference"],
+    },
 }
